@@ -3,6 +3,7 @@ package rfc
 import (
 	"fmt"
 	"net/http"
+	"sync/atomic"
 	"testing"
 	"time"
 
@@ -50,10 +51,10 @@ func TestC08Inflight(t *testing.T) {
 		}
 		r.Begin(i, cs)
 		fail := r.Bubble(func() {
-			changed := false
+			var changed atomic.Bool
 			w := sim.NewWorld(sim.WorldOpt{Handler: func(uc *sim.UpCall, req *http.Request) *sim.Reply {
 				gen := "1"
-				if changed {
+				if changed.Load() {
 					gen = "2"
 				}
 				rs := RespSpec{Status: 200, CC: []string{"max-age=5, stale-while-revalidate=100000"}, BodySize: 14, Extra: map[string][]string{"X-Gen": {gen}}}
@@ -68,15 +69,16 @@ func TestC08Inflight(t *testing.T) {
 				}
 				if uc.Background {
 					rs.DelayS = cs.DelayS
-					if cs.BgKind == "304" && uc.Conditional() && !changed {
+					if cs.BgKind == "304" && uc.Conditional() && !changed.Load() {
 						rs.Status, rs.BodySize = 304, 0
 					}
-				} else if uc.Conditional() && !changed {
+				} else if uc.Conditional() && !changed.Load() {
 					rs.Status, rs.BodySize = 304, 0
 				}
 				return Render(&rs, uc.Enter, uc.Serial)
 			}})
 			defer w.Close()
+			defer w.Settle(nil, 20*time.Second) // whatever is still in flight finishes inside the bubble
 			const url = "http://a.example/c8i"
 			h := func(cc string) map[string][]string {
 				m := map[string][]string{}
@@ -97,7 +99,7 @@ func TestC08Inflight(t *testing.T) {
 				return
 			}
 			time.Sleep(time.Duration(cs.ReloadAt * float64(time.Second)))
-			changed = true // the origin now holds generation 2
+			changed.Store(true) // the origin now holds generation 2
 			rl := w.Do(sim.ReqSpec{URL: url, Header: h(cs.Via)})
 			newBody := rl.BodySerial()
 			if newBody == "" || newBody == oldBody {
@@ -113,14 +115,14 @@ func TestC08Inflight(t *testing.T) {
 				if ex.Header != nil && ex.BodySerial() == oldBody {
 					r.Violation("replaced-representation-served", sig, fmt.Sprintf("request %d after the late background reply got the representation that a reload had replaced while the validation was in flight (body %s, X-Gen %s, ETag %s); %s", k, oldBody, ex.Header.Get("X-Gen"), ex.Header.Get("Etag"), ex.Summary()), exSummaries(w))
 				}
-				if ex.Header != nil && ex.BodySerial() != "" && ex.BodySerial() != oldBody && ex.Header.Get("X-Gen") == "1" {
-					r.Violation("header-not-updated", sig+",old-header-block-on-new-body", "the new body is served under the replaced header block; "+ex.Summary(), exSummaries(w))
+				if mb := w.Call(ex.BodySerial()); ex.Header != nil && mb != nil && mb.Reply != nil && mb.Reply.Header.Get("X-Gen") != ex.Header.Get("X-Gen") {
+					// (a 304 is only ever about the generation it was asked about)
+					r.Violation("header-not-updated", sig+",header-block-of-another-generation", fmt.Sprintf("a body of generation %s is served under a header block of generation %s; %s", mb.Reply.Header.Get("X-Gen"), ex.Header.Get("X-Gen"), ex.Summary()), exSummaries(w))
 				}
 				time.Sleep(time.Second)
 			}
 			r.Count("overlaps_judged", 1)
 			r.Nontrivial(fmt.Sprintf("%+v", cs))
-			w.Settle(nil, 10*time.Second)
 			if r.WantSample() {
 				r.Sample(map[string]any{"case": cs, "history": exSummaries(w)})
 			}
